@@ -142,16 +142,24 @@ static bool handle_ffi_req(int in_fd, uint32_t payload_len) {
             cop_send(STDOUT_FILENO, COP_MSG_FFI_RESULT, stack_buf, result_len);
         } else {
             /* Stack buffer too small — retry with a larger heap buffer */
-            uint32_t big_size = 1024 * 1024;  /* 1 MB */
-            uint8_t *big_buf = malloc(big_size);
-            if (big_buf) {
+            uint32_t big_size = 1024 * 1024;  /* 1 MB, doubled until the result fits */
+            uint8_t *big_buf = NULL;
+            while (big_size <= COP_MAX_PAYLOAD) {
+                uint8_t *nb = realloc(big_buf, big_size);
+                if (!nb) break;
+                big_buf = nb;
                 result_len = cop_serialize_value(&result, big_buf, big_size);
-                cop_send(STDOUT_FILENO, COP_MSG_FFI_RESULT, big_buf, result_len);
-                free(big_buf);
-            } else {
-                cop_send(STDOUT_FILENO, COP_MSG_FFI_ERROR,
-                         "OOM serializing result", 22);
+                if (result_len > 0) break;
+                big_size *= 2;
             }
+            if (result_len > 0) {
+                cop_send(STDOUT_FILENO, COP_MSG_FFI_RESULT, big_buf, result_len);
+            } else {
+                /* never announce success with an empty payload: the VM would read it as void */
+                cop_send(STDOUT_FILENO, COP_MSG_FFI_ERROR,
+                         "result too large to serialize", 29);
+            }
+            free(big_buf);
         }
         vm_release(&g_heap, result);
     }
